@@ -214,8 +214,21 @@ def _exclude_unit(n):
             removed = [i for i in range(n) if i not in kept]
             U.ensure("surviving points keep their order", kept == sorted(kept))
             U.ensure("only new points are removed (old, possibly evaluated, points are never deleted)", all(i >= first_new for i in removed))
-            U.ensure("every removed point was absorbed by exactly one equivalent survivor",
-                     all(sum(i in Ks[j].absorbed for j in kept) == 1 and all(cls[j] == cls[i] for j in kept if i in Ks[j].absorbed) for i in removed))
+            # a removed point may have absorbed others before it was absorbed itself (the order inside a shell is numpy's argsort order of equal
+            # distances, which is not fixed): what matters is where its weight ends up -- follow the chain of absorptions
+            absorber = {}
+            for j in range(n):
+                for i in Ks[j].absorbed:
+                    absorber.setdefault(i, []).append(j)
+
+            def owner(i):
+                seen = set()
+                while i in absorber and i not in seen:
+                    seen.add(i)
+                    i = absorber[i][0]
+                return i
+            U.ensure("every removed point was absorbed exactly once, and the chain of absorptions ends in an equivalent survivor",
+                     all(len(absorber.get(i, [])) == 1 and owner(i) in kept and cls[owner(i)] == cls[i] for i in removed) and all(i not in absorber for i in kept))
             U.ensure("no new point survives next to an equivalent earlier survivor",
                      all(not (cls[a] == cls[b] and b >= first_new) for a in kept for b in kept if a < b))
             tot0 = 0
@@ -225,8 +238,8 @@ def _exclude_unit(n):
             for k in lst:
                 tot1 = tot1 + k.factor
             U.ensure("the total weight is conserved", lambda: tot1 == tot0)
-            U.ensure("each survivor's weight is its own plus the weights of the points it absorbed",
-                     lambda: land(*[Ks[j].factor == _sum([w0[j]] + [w0[i] for i in Ks[j].absorbed]) for j in kept]))
+            U.ensure("each survivor's weight is its own plus the weights of the points whose absorption chain ends in it",
+                     lambda: land(*[Ks[j].factor == _sum([w0[j]] + [w0[i] for i in removed if owner(i) == j]) for j in kept]))
         U.run(body, check_feasible=False, max_paths=100000)
         U.assumption("equiv() is an equivalence relation and equivalent points have equal distGamma (the symmetry images of a point lie at the same distance from the nearest Gamma image)")
 
